@@ -231,6 +231,15 @@ def run(F, R, tier):
                     "from the Ok edge of compute_signature every path to the send passes insert(AUTHORIZATION_HEADER)",
                     "a signed request can be sent without the authorization insert",
                     witness={"path_lines": BS.path_lines(p)} if p else None)
+        # per send site (a retry / second send counts): the request object handed to *this* send is one that received the insert
+        for c in ssends:
+            sl = base_local(BS, c[3]["args"][1])
+            mine = [a[0] for a in auth_sites if request_local_of_map(BS, a[1]["args"][0]) == sl]
+            okm = bool(mine) and all(BS.path([e[1]], [c[0]], cut_blocks=mine) is None for e in imp)
+            R.check(okm, "C05.R3", R.key("C05.R3", HRS, "each-send-carries-the-insert"), q.where(BS, c[0]),
+                    "the request given to this send is the object that received insert(AUTHORIZATION_HEADER) on every signed path",
+                    "this send forwards a request object (%s) that did not receive the proxy's authorization insert: a client-supplied "
+                    "authorization header on it reaches the host" % (BS.locals[sl].get("name") if sl is not None else "?"))
         p = BS.path([0], ab, cut_edges=imp)
         R.check(p is None, "C05.R3", "C05.R3:%s:insert-only-after-signing" % HRS, q.where(BS, ab[0]),
                 "insert(AUTHORIZATION_HEADER) is reachable only through the Ok edge of compute_signature")
